@@ -1,6 +1,7 @@
 import YakModel.Proofs.TreeProofs
 import YakProps.C02
 import YakModel.Proofs.RouteProofs
+import YakModel.Proofs.BTreeOpsProofs
 /-!
 # C08 — Tree stays coherent (sequential quantifier)
 
@@ -107,5 +108,62 @@ theorem interior_descent_matches_model_route (pfx : List UInt8) (t : Yak.Shape.B
 theorem interior_descent_total (pfx : List UInt8) (t : Yak.Shape.BTree) (k : KT)
     (h : Yak.Shape.checkLayer pfx t = true) (hk : k.WF) : (Yak.Route.descend t k).isSome = true :=
   Yak.Route.checkLayer_descend_isSome pfx t k h hk
+
+/-! ### Structural evolution with interior nodes (`BTreeOps`)
+
+`BTreeOps.insertB` / `removeB` mirror, at the level of shape, `insert_lv` / `border_split` /
+`interior_node::insert` / `interior_split` / new root creation and `border_node::delete_of` /
+`interior_node::delete_of` (unlink with the separator rule per child position, collapse). The
+correspondence checker evaluates them on every pair of consecutive dumps of the implementation
+(difference class `shape`: the new dump must have exactly the shape the model computes from the
+previous one). These theorems say that this B+-tree-level model refines the interior-free chain
+model used by the proofs above, and preserves the checked well-formedness. -/
+
+open Yak.Shape Yak.Route Yak.BTreeOps in
+/-- inserting an absent tuple into a checked tree changes the flattened chain exactly like the
+    chain model: the owning leaf (by the fence rule) receives it in order; a full leaf (15) becomes
+    two leaves, the left keeps its fence and 8 or 9 entries, the right's fence is its first tuple. -/
+theorem insert_refines_chain (pfx : List UInt8) (t : BTree) (e : DEnt)
+    (h : checkLayer pfx t = true) (hk : e.kt.WF)
+    (habs : ∀ l ∈ chainOf t none, ∀ x ∈ l.ents, x.kt ≠ e.kt) :
+    ∃ A l B, chainOf t none = A ++ l :: B ∧ byFence (chainOf t none) e.kt = some l ∧
+      (∀ x ∈ B, fenceLe x.fence e.kt = false) ∧
+      (∃ a b, l.ents = a ++ b ∧
+        insAt l.ents (rankIfInsert e.kt (l.ents.map (·.kt))) e = a ++ e :: b ∧
+        (∀ x ∈ a, KT.lt x.kt e.kt = true) ∧ (∀ x ∈ b, KT.lt e.kt x.kt = true)) ∧
+      (l.ents.length ≠ 15 → chainOf (insertB t e) none =
+        A ++ ⟨l.fence, l.v, insAt l.ents (rankIfInsert e.kt (l.ents.map (·.kt))) e⟩ :: B) ∧
+      (l.ents.length = 15 → ∃ L R sep, chainOf (insertB t e) none =
+          A ++ ⟨l.fence, l.v, L⟩ :: ⟨some sep, l.v, R⟩ :: B ∧
+        L ++ R = insAt l.ents (rankIfInsert e.kt (l.ents.map (·.kt))) e ∧
+        (L.length = 8 ∨ L.length = 9) ∧ R.head?.map (·.kt) = some sep) :=
+  insertB_chain_checked pfx t e h hk habs
+
+open Yak.Shape Yak.Route Yak.BTreeOps in
+/-- removing a tuple: the owning leaf loses it; an emptied leaf that is not the only one disappears,
+    and its key range goes to the right neighbour iff it was child 0 of its parent (the only case
+    in which a fence moves), to the left neighbour otherwise. -/
+theorem remove_refines_chain (pfx : List UInt8) (t : BTree) (kt : KT)
+    (h : checkLayer pfx t = true) (hk : kt.WF) :
+    ∃ A l B, chainOf t none = A ++ l :: B ∧ byFence (chainOf t none) kt = some l ∧
+      (∀ x ∈ B, fenceLe x.fence kt = false) ∧
+      (¬ ((∃ x ∈ l.ents, x.kt = kt) ∧ l.ents.length = 1 ∧ (A ≠ [] ∨ B ≠ [])) →
+        chainOf (removeB t kt) none =
+          A ++ ⟨l.fence, l.v, l.ents.filter (fun x => decide (x.kt ≠ kt))⟩ :: B) ∧
+      ((∃ x ∈ l.ents, x.kt = kt) → l.ents.length = 1 → (A ≠ [] ∨ B ≠ []) →
+        (leafIdx t kt = some 0 →
+          B ≠ [] ∧ chainOf (removeB t kt) none = A ++ setHeadFence l.fence B) ∧
+        (leafIdx t kt ≠ some 0 → chainOf (removeB t kt) none = A ++ B)) :=
+  removeB_chain_checked pfx t kt h hk
+
+open Yak.Shape Yak.Route Yak.BTreeOps in
+/-- both operations keep the interior nodes well formed and the fences strictly increasing. -/
+theorem structure_ops_keep_check (pfx : List UInt8) (t : BTree) (h : checkLayer pfx t = true) :
+    (∀ e : DEnt, e.kt.WF → (∀ l ∈ chainOf t none, ∀ x ∈ l.ents, x.kt ≠ e.kt) →
+      checkInteriors (insertB t e) = true ∧ fencesSorted (chainOf (insertB t e) none)) ∧
+    (∀ kt : KT, kt.WF →
+      checkInteriors (removeB t kt) = true ∧ fencesSorted (chainOf (removeB t kt) none)) :=
+  ⟨fun e hk habs => insertB_keeps_check_checked pfx t e h hk habs,
+   fun kt hk => removeB_keeps_check_checked pfx t kt h hk⟩
 
 end Yak.Props.C08
